@@ -66,4 +66,43 @@ theorem typed_shape {ws : List Str} {q : Str} (hws : ∀ w ∈ ws, 45 ∉ w) (hq
   rw [hl, joinHy_snoc]
   split <;> simp
 
+/-! ### one answer cannot stand in for another (sessions on one wordlist object) -/
+
+/-- the text before the partial word is empty or ends with the hyphen -/
+theorem stem_nil_or_hy (p : Str) : stemOf p = [] ∨ ∃ y, stemOf p = y ++ [45] := by
+  obtain ⟨x, hx, hs⟩ := exists_stem p
+  rw [stem_unique hx]
+  rcases hs with h | ⟨ws, _, h, _⟩
+  · exact Or.inl h
+  · exact Or.inr ⟨_, h⟩
+
+theorem stem_prefix_eq {a b : Str} (hb : b = [] ∨ ∃ y, b = y ++ [45]) (hc : a.count 45 = b.count 45)
+    (h : a <+: b) : a = b := by
+  obtain ⟨t, rfl⟩ := h
+  rw [List.count_append] at hc
+  have ht : 45 ∉ t := List.count_eq_zero.mp (by omega)
+  rcases hb with hb | ⟨y, hy⟩
+  · simp at hb; simp [hb.2]
+  · rcases List.eq_nil_or_concat t with rfl | ⟨t', x, rfl⟩
+    · simp
+    · have hx : x = 45 := by
+        have := congrArg List.getLast? hy
+        simpa [List.concat_eq_append, ← List.append_assoc] using this
+      subst hx
+      simp [List.concat_eq_append] at ht
+
+/-- two texts with the same number of hyphens whose parts before the partial word are both prefixes of one
+    string have the same part before the partial word -/
+theorem stem_eq_of_common_extension {p p' c : Str} (hk : p.count 45 = p'.count 45)
+    (h : stemOf p <+: c) (h' : stemOf p' <+: c) : stemOf p = stemOf p' := by
+  have hc : (stemOf p).count 45 = (stemOf p').count 45 := by rw [count_stem, count_stem, hk]
+  rcases List.prefix_or_prefix_of_prefix h h' with hh | hh
+  · exact stem_prefix_eq (stem_nil_or_hy p') hc hh
+  · exact (stem_prefix_eq (stem_nil_or_hy p) hc.symm hh).symm
+
+theorem stem_prefix_of_mem_getCompletions {p : Str} {n : Nat} {c : Str} (h : c ∈ getCompletions p n) :
+    stemOf p <+: c := by
+  have h1 : stemOf p <+: p := ⟨lastPart p, stem_append_last p⟩
+  exact h1.trans (prefix_of_mem_getCompletions h)
+
 end WV.Proofs.C19
